@@ -2,7 +2,9 @@
 (***************************************************************************)
 (* C19: two runs on the same abstract document, concretised differently.   *)
 (*   Variant == [rendering, schemas, paths, props]                         *)
-(*     rendering \in {"json","yamlBlock","yamlFlow","yamlBareKeys"}        *)
+(*     rendering \in {"json","jsonSorted","yamlBlock","yamlFlow",         *)
+(*                    "yamlBareKeys","yamlCapBool"}  (sorted keys; bare    *)
+(*                    numeric status keys; booleans written True/False)    *)
 (*     schemas / paths / props \in {"id","rev","rot"} (how the entries of  *)
 (*     components.schemas, paths, and each object's properties are         *)
 (*     permuted; "id" = as declared)                                       *)
@@ -16,12 +18,15 @@ EXTENDS Naturals, Sequences, FiniteSets, TLC, Json
 CONSTANTS Renderings, Perms
 VARIABLES v, done
 
-Variants == [rendering : Renderings, schemas : Perms, paths : Perms, props : Perms]
-Pure(x) == x.schemas = "id" /\ x.paths = "id" /\ x.props = "id"
-Reference == [rendering |-> "json", schemas |-> "id", paths |-> "id", props |-> "id"]
+\* pathitem: order of the keys INSIDE every path item (methods and the shared `parameters` entry)
+Variants == [rendering : Renderings, schemas : Perms, paths : Perms, props : Perms, pathitem : Perms]
+\* sorted-key JSON reorders every mapping: it is a permutation of all dimensions, not a pure re-rendering
+Pure(x) == x.schemas = "id" /\ x.paths = "id" /\ x.props = "id" /\ x.pathitem = "id" /\ x.rendering # "jsonSorted"
+Reference == [rendering |-> "json", schemas |-> "id", paths |-> "id", props |-> "id", pathitem |-> "id"]
 \* one dimension at a time plus the all-permuted corner (the full product adds nothing the pairs do not show)
 Interesting(x) == x # Reference /\
-  (Pure(x) \/ Cardinality({d \in {"schemas", "paths", "props"} : x[d] # "id"}) = 1 \/ (x.schemas = x.paths /\ x.paths = x.props))
+  (Pure(x) \/ Cardinality({d \in {"schemas", "paths", "props", "pathitem"} : x[d] # "id"}) = 1
+           \/ (x.schemas = x.paths /\ x.paths = x.props /\ x.props = x.pathitem))
 
 Init == v \in {x \in Variants : Interesting(x)} /\ done = FALSE
 Emit == ~done /\ done' = TRUE /\ UNCHANGED v /\ PrintT("SCEN " \o ToJson([variant |-> v, pure |-> Pure(v)]))
